@@ -8,7 +8,7 @@ from ..flow import Aff, Facts, cmp_to_constraints
 
 META = {
     'design_ref': 'DESIGN.md §5 C03',
-    'technique': 'path-sensitive abstract interpretation of the comparison routines over position configurations with linear facts (Fourier-Motzkin entailment; padded list comparison normalised to the position loop); operator table and version_compare from path enumeration with substitution; character order chain from the paths of _order with regex literals and constant tables (constant folding of computed tables) evaluated per character class; chunk-partition language check; heap interpretation of __hash__ on classes of equally ordered versions (one value per class reaches hash()); may-raise rule for int() of unbounded digit runs, per public operation; constructor premise valid ⊆ accepted from the C14 automata',
+    'technique': 'path-sensitive abstract interpretation of the comparison routines over position configurations with linear facts (Fourier-Motzkin entailment; padded list comparison normalised to the position loop); operator table and version_compare from path enumeration with substitution; character order chain from the paths of _order with regex literals and constant tables (constant folding of computed tables) evaluated per character class; chunk-partition language check; heap interpretation of __hash__ on classes of equally ordered versions (one value per class reaches hash()); may-raise rule for int() of unbounded digit runs, per public operation; constructor premise valid ⊆ accepted from the C14 automata; character order chain tabulated by interpreting _order on every ASCII character; freshness rule: every instance attribute read by the comparison or the hash is an assignable component or is stored by the single update funnel',
     'level_text': 'Static decision of necessary conditions: the six operators are _compare(other) <op> 0; epochs are compared as integers '
                   'with absent = 0 and decide alone only when they differ numerically; upstream then revision with the same default on both '
                   'sides; the chunk comparison is numeric for two digit chunks and delegates to the character comparison otherwise, padding an '
@@ -585,6 +585,10 @@ def list_truth(name, env, la, lb):
 def analyse_list_comparator(f, elem_kind):
     """per position configuration: outcomes of one loop step.  returns dict cfgname -> list of (kind, payload, facts, consumed)"""
     fnode_, _inl = normalize.inline_helpers(f, depth=2, skip=('_version_cmp_string', '_version_cmp_part', '_order'))
+    # `a = la.pop(0) if la else '0'`: an assignment whose value is chosen by a test that is not a comparison of the two elements is
+    # the if-statement it abbreviates
+    if any(isinstance(st, ast.Assign) and isinstance(st.value, ast.IfExp) and not isinstance(st.value.test, ast.Compare) for st in ast.walk(fnode_)):
+        fnode_ = normalize.ifexp_to_if(fnode_)
     params = f.params()
     va, vb = params[1], params[2]
     if not any(isinstance(st, ast.While) for st in fnode_.body):
@@ -875,120 +879,50 @@ def fold_char_expr(e, var, ch):
 
 
 def r3b_order_chain(rep, src):
-    """_order: '~' < 0 (pad) < digits < letters (by code) < everything else"""
+    """_order: '~' < 0 (pad) < digits < letters (by code) < everything else.  The weight of every ASCII character is computed by
+    interpreting _order on it (sa.heap; class-level tables are the folded values, regex tests are decided on the one character) --
+    a finite function, tabulated, then the chain is a comparison of ranges"""
+    from .. import heap as H
     f = src.func(CLS + '._order')
     rep.saw_func(f)
-    x = f.params()[1]
-    alpha = rx.alphabet('str')
-    ASCII = (1 << 128) - 1
     mod = src.mod(M)
-    lookup = paths.module_consts(mod, 'NativeVersion')
-    fnode, _ = normalize.inline_helpers(f)
-
-    def lit_mask(t):
-        """characters (ASCII) for which the literal is true"""
-        if isinstance(t, ast.Compare) and len(t.ops) == 1 and isinstance(t.ops[0], (ast.Eq, ast.NotEq, ast.In, ast.NotIn)):
-            l, r = t.left, t.comparators[0]
-            if norm(r) == x and isinstance(t.ops[0], (ast.Eq, ast.NotEq)):
-                l, r = r, l
-            if norm(l) == x:
-                cv = paths.Folder(lookup).value(r)
-                if cv is not None and isinstance(cv[1], (str, tuple, list, frozenset, set, dict)):
-                    members = [cv[1]] if isinstance(t.ops[0], (ast.Eq, ast.NotEq)) else list(cv[1])
-                    m = 0
-                    for c in members:
-                        if isinstance(c, str) and len(c) == 1 and c in alpha.idx and alpha.idx[c] < 128:
-                            m |= 1 << alpha.idx[c]
-                    return m if isinstance(t.ops[0], (ast.Eq, ast.In)) else ASCII & ~m
-        neg = False
-        e = t
-        if isinstance(t, ast.Compare) and len(t.ops) == 1 and isinstance(t.comparators[0], ast.Constant) and t.comparators[0].value is None \
-                and isinstance(t.ops[0], (ast.Is, ast.IsNot)):
-            neg = isinstance(t.ops[0], ast.Is)
-            e = t.left
-        if isinstance(e, ast.Call) and isinstance(e.func, ast.Attribute) and e.func.attr in ('match', 'fullmatch', 'search') and [norm(a) for a in e.args] == [x]:
-            rname = norm(e.func).split('.')[-2]
-            r = src.regex(M, rname, cls='NativeVersion')
-            L = rx.regex_lang(r['pattern'], r['flags'], e.func.attr, alpha=alpha)
-            m = 0
-            for i in range(128):
-                if L.accepts(alpha.syms[i]):
-                    m |= 1 << i
-            return ASCII & ~m if neg else m
-        if isinstance(e, ast.Call) and isinstance(e.func, ast.Attribute) and norm(e.func.value) == x and not e.args \
-                and e.func.attr in ('isdigit', 'isdecimal', 'isnumeric', 'isalpha', 'isalnum', 'isspace', 'isupper', 'islower', 'isascii', 'isidentifier', 'isprintable'):
-            m = 0
-            for i in range(128):
-                if getattr(alpha.syms[i], e.func.attr)():
-                    m |= 1 << i
-            return m
-        raise AnalysisError('%s: branch condition outside the vocabulary: %s' % (f.site, norm(t)))
-    classes = []
-    for p_ in paths.function_paths(fnode, paths.Folder(lookup)):
-        m = ASCII
-        for t, pol in p_.conds:
-            lm = lit_mask(t)
-            m &= lm if pol else (ASCII & ~lm)
-        if not m:
+    weight = {}
+    for i in range(128):
+        ch = chr(i)
+        heap = H.Heap(mod)
+        heap.native_regex = True
+        it = H.Interp(heap)
+        try:
+            v = it.call(H.Closure(f.node, {}, ('class', 'NativeVersion'), f.cls), [ch])
+        except H.Raised:
             continue
-        if p_.outcome[0] == 'raise':
-            continue
-        if p_.outcome[0] != 'return' or p_.outcome[1] is None:
-            raise AnalysisError('%s: a path does not return a value' % f.site)
-        classes.append((m, p_.outcome[1]))
-    CONSTS[0] = lookup
-    def rng(expr, mask):
-        """(min, max) of the returned value over the characters in mask"""
-        vals = []
-        for i in range(128):
-            if mask >> i & 1:
-                c = alpha.syms[i]
-                env = {x: c}
-                v = fold_char_expr(expr, x, c)
-                if v is None:
-                    return None
-                vals.append(v)
-        return (min(vals), max(vals)) if vals else None
-    tilde = 1 << alpha.idx['~']
-    digits = alpha.mask_of(lambda c: c in '0123456789')
-    letters = alpha.mask_of(lambda c: c.isascii() and c.isalpha())
-    # characters that can occur in a version besides digits/letters/~
-    others = alpha.mask_of(lambda c: c in '.+-:')
-
-    def range_of(mask):
-        lo, hi = None, None
-        for m, expr in classes:
-            mm = m & mask
-            if not mm:
-                continue
-            r = rng(expr, mm)
-            if r is None:
-                raise AnalysisError('%s: cannot evaluate %s' % (f.site, norm(expr)))
-            lo = r[0] if lo is None else min(lo, r[0])
-            hi = r[1] if hi is None else max(hi, r[1])
-        return lo, hi
-    rt, rd, rl, ro = range_of(tilde), range_of(digits), range_of(letters), range_of(others)
+        if isinstance(v, bool) or not isinstance(v, int):
+            raise AnalysisError('%s: the weight of %r is not a decided integer (%r)' % (f.site, ch, v))
+        weight[ch] = v
+    def rng(chars):
+        vals = [weight[c] for c in chars if c in weight]
+        if len(vals) != len(chars):
+            raise AnalysisError('%s: no weight for %r' % (f.site, [c for c in chars if c not in weight]))
+        return (min(vals), max(vals))
+    import string as _s
+    rt, rd, rl, ro = rng('~'), rng(_s.digits), rng(_s.ascii_letters), rng('.+-:')
     chain = rt[1] < 0 < rd[0] and rd[1] < rl[0] and rl[1] < ro[0]
     if chain:
         rep.ok('C03.R3', f.site, 'order chain', "'~' %s < pad 0 < digits %s < letters %s < other characters %s" % (rt, rd, rl, ro))
     else:
         rep.fail('C03.R3', f.site, 'order chain', "order values do not form the chain '~' < end-of-string (0) < digits < letters < other characters: "
                  "'~' %s, digits %s, letters %s, others %s" % (rt, rd, rl, ro), where=f.where)
-    # letters by code point
-    mono = True
-    prev = None
-    for i in range(128):
-        if letters >> i & 1:
-            for m, expr in classes:
-                if m >> i & 1:
-                    v = rng(expr, 1 << i)[0]
-                    if prev is not None and v <= prev:
-                        mono = False
-                    prev = v
+    letters = sorted(_s.ascii_letters)
+    mono = all(weight[a] < weight[b] for a, b in zip(letters, letters[1:]))
     if mono:
         rep.ok('C03.R3', f.site, 'letters sort by code point', 'strictly increasing', nontrivial=False)
     else:
         rep.fail('C03.R3', f.site, 'letters sort by code point', 'letters are not ordered by their code', where=f.where)
+    dmono = all(weight[a] < weight[b] for a, b in zip(_s.digits, _s.digits[1:]))
+    if dmono:
+        rep.ok('C03.R3', f.site, 'digits sort by value', 'strictly increasing', nontrivial=False)
+    else:
+        rep.fail('C03.R3', f.site, 'digits sort by value', 'the weights of the digits 0..9 are not increasing', where=f.where)
 
 
 def r5_hash(rep, src):
@@ -1131,6 +1065,65 @@ def r6_unbounded_conversions(rep, src):
         raise AnalysisError('only %d functions with integer conversions found on the comparison / hash path' % n)
 
 
+def r8_live_components(rep, src):
+    """a version object can be edited (epoch, upstream_version, debian_revision, full_version are assignable): comparison and hash must
+    speak about the components the object has NOW.  Every instance attribute that the comparison / the hash reads -- in _compare,
+    __hash__ and the methods they call, on self, on the other operand or on a parameter one of them is passed as -- is one of the
+    assignable components (magic_attrs), or is stored by the function every component update funnels through (_set_full_version);
+    an attribute that is only stored elsewhere (at construction) goes stale on the first assignment"""
+    mod = src.mod(M)
+    magic = mod.consts.get('BaseVersion', {}).get('magic_attrs')
+    if not isinstance(magic, (tuple, list, set, frozenset)) or not magic:
+        raise AnalysisError('BaseVersion.magic_attrs is not a table of constants')
+    funnel = src.func(M + ':BaseVersion._set_full_version')
+
+    def stored_on_self(fn):
+        out = set()
+        for n in ast.walk(fn.node):
+            if isinstance(n, ast.Attribute) and isinstance(n.ctx, ast.Store) and isinstance(n.value, ast.Name) and n.value.id == 'self':
+                out.add(n.attr)
+        return out
+    maintained = stored_on_self(funnel)
+    classes = [c for c in ('NativeVersion', 'BaseVersion') if c in mod.classes]
+    state = {}          # attribute -> functions of the classes that store it on self
+    for q, fn in mod.funcs.items():
+        if fn.cls in classes:
+            for a in stored_on_self(fn):
+                state.setdefault(a, []).append(q)
+    n_inst = 0
+    for entry in ('NativeVersion._compare', 'BaseVersion.__hash__'):
+        start = mod.funcs.get(entry)
+        if start is None:
+            raise AnalysisError('%s not found' % entry)
+        rep.saw_func(start)
+        seen, todo, reads = set(), [start], []
+        while todo:
+            fn = todo.pop()
+            if fn.qual in seen:
+                continue
+            seen.add(fn.qual)
+            params = {a.arg for a in fn.node.args.args} - {'cls'}
+            for n in ast.walk(fn.node):
+                if isinstance(n, ast.Attribute) and isinstance(n.ctx, ast.Load) and isinstance(n.value, ast.Name) and (n.value.id in params or n.value.id == 'cls'):
+                    callee = mod.method(fn.cls or 'NativeVersion', n.attr) or mod.method('NativeVersion', n.attr)
+                    if callee is not None:
+                        todo.append(callee)
+                    elif n.value.id in params:
+                        reads.append((n.attr, fn, n.lineno))
+        stale = [(a, fn, ln) for a, fn, ln in reads if a in state and a not in magic and a not in maintained
+                 and not (a.startswith('__') and ('_BaseVersion' + a) in maintained)]
+        n_inst += 1
+        what = '%s reads the components the object has now' % entry
+        if stale:
+            a, fn, ln = stale[0]
+            rep.fail('C03.R8', start.site, what, '%s reads the instance attribute `%s` (line %d), which is stored by %s and not by %s nor through an assignable component: after '
+                     '`v.upstream_version = ...` (or epoch / debian_revision / full_version) the object still compares (hashes) as the version it was constructed from'
+                     % (fn.qual, a, ln, ', '.join(sorted(set(state[a]))), funnel.qual), where='%s:%d' % (mod.relpath, ln))
+        else:
+            rep.ok('C03.R8', start.site, what, '%d attribute reads in %d functions, instance state only through %s' % (len(reads), len(seen), sorted(set(magic))))
+    return n_inst
+
+
 def check(src, rep, tier):
     rep.explanation = ('C03: (R1) operator table.  (R2) every path of NativeVersion._compare after the conversion prologue is enumerated with '
                        'linear facts on L = int(self.epoch or "0"), R = int(other.epoch or "0"): -1 only under L<R, 1 only under L>R, the '
@@ -1158,3 +1151,5 @@ def check(src, rep, tier):
     rep.guard('C03.R5', r5_hash, src)
     rep.need('C03.R6', 2)
     rep.guard('C03.R6', r6_unbounded_conversions, src)
+    rep.need('C03.R8', 2)
+    rep.guard('C03.R8', r8_live_components, src)
